@@ -496,8 +496,8 @@ PROPS = {
                    'reference recount of every involved forest, follow-up operation against the oracle.',
      'level_note': 'The full-strength precheck_total is false for the code that exists: lax_exact delimits the gap (arithmetic on Boolean forests, comparison of '
                    'index sets, non-Boolean relation or foreign result forest in reachability, vector-matrix product over mixed ranges). Nothing is steered away: '
-                   'the crash classes F1..F6 and F8 of the first round are repaired in the library; what is still present (F8b: operand edges of '
-                   'binary_operation::compute are not tested) is reproduced once per run in a forked child (case 99) and reported as a KNOWN-FINDING. Aborted operations leak references (stored in-count above the recount): reported as '
+                   'the crash classes F1..F6 and F8 of the first round are repaired in the library; the last one (F8b: operand edges of '
+                   'binary_operation::compute not tested) is repaired as well (fix ff54c79); its reproducer (case 99) still runs in a forked child on every check. Aborted operations leak references (stored in-count above the recount): reported as '
                    'information (leakinfo), the audit is one-sided (never below) because the property demands canonical and usable, not leak-free. C++ unwinding / '
                    'memory safety on the error paths is shown by the ASan flavour on the explored scripts (thorough tier), not by a theorem.',
      'technique': 'Lean 4 proof (kernel evaluation of the whole finite decision table + induction on the store) + exhaustive differential run of the table + '
